@@ -8,9 +8,10 @@ PATCH="$(readlink -f "$1")"; TIER="$2"; shift 2
 ROOT="$(cd "$(dirname "$0")/.." && pwd)"
 W="/tmp/mut-$$"
 rm -rf "$W"; mkdir -p "$W"
-git -C /repo archive HEAD | (mkdir -p "$W/repo" && tar -x -C "$W/repo")
-# the scratch copy must reflect /repo's working tree (normally clean)
-(cd /repo && git diff HEAD) | (cd "$W/repo" && patch -p1 -s >/dev/null 2>&1 || true)
+# REPO_REV: the /repo commit the patch was written against (default: HEAD plus the working tree)
+REV="${REPO_REV:-HEAD}"
+git -C /repo archive "$REV" | (mkdir -p "$W/repo" && tar -x -C "$W/repo")
+if [ "$REV" = HEAD ]; then (cd /repo && git diff HEAD) | (cd "$W/repo" && patch -p1 -s >/dev/null 2>&1 || true); fi
 if ! (cd "$W/repo" && patch -p1 -s < "$PATCH" >"$W/patch.log" 2>&1); then
   echo "PATCH-DOES-NOT-APPLY $(basename "$PATCH")"; cat "$W/patch.log"; rm -rf "$W"; exit 2
 fi
